@@ -52,6 +52,20 @@ def fq (v tol : Rat) : String := s!"q:{v.num}/{v.den}:{tol.num}/{tol.den}"
 /-- `2⁻²⁴` -/
 def u24 : Rat := pow2 (-24)
 
+/-! ### `cos` / `sin` of a float angle through binary64 (for `zoom_viewgram`) -/
+
+def ratToFloat (q : Rat) : Float := Float.ofInt q.num / Float.ofNat q.den
+
+/-- exact value of a finite binary64 -/
+def floatToRat (x : Float) : Rat :=
+  if x == 0 then 0
+  else
+    let neg := x < 0
+    let (m, e) := (if neg then -x else x).frExp
+    let mi : Nat := (m.scaleB 53).toUInt64.toNat
+    let q : Rat := (mi : Rat) * pow2 (e - 53)
+    if neg then -q else q
+
 /-! ### state -/
 
 structure St where
@@ -200,6 +214,43 @@ def stepLine (st : St) (line : String) : St × String :=
              s!"{ot go.ox g.ox g.vx g.xmin g.nx go.vx go.xmin go.nx} |" ++
              String.join ((flat r.d).map fun v => " " ++ fq v tol))
       | none => (st, "bad-op")
+  | "zvg" :: variant :: "|" :: rest =>
+    let (prm, rest) := splitBar rest
+    let (dims, dat) := splitBar rest
+    match prm, dims with
+    | [inBin, zb, phi, xoff, yoff], [d0, d1, inLo, inN, nax] =>
+      let inBin := H inBin
+      let xo := H xoff
+      let yo := H yoff
+      let c := floatToRat (Float.cos (ratToFloat (H phi)))
+      let s := floatToRat (Float.sin (ratToFloat (H phi)))
+      let inN := (I inN).toNat
+      let vals := dat.map H
+      let rows := chunks inN (I nax).toNat vals
+      let rowsAbs := chunks inN (I nax).toNat (vals.map absQ)
+      -- (first tangential position, number of positions, tangential sampling, rows) of the result
+      let (outLo, outN, outBin, res, mag) :=
+        if variant == "out" then
+          (I d0, (I d1).toNat, H zb, zoomViewgram (I d0) (I d1).toNat (I inLo) rows inBin (H zb) xo yo c s,
+            zoomViewgram (I d0) (I d1).toNat (I inLo) rowsAbs inBin (H zb) xo yo c s)
+        else
+          let r := zoomViewgramInPlace (H zb) (I d0) (I d1) (I inLo) rows inBin xo yo c s
+          let m := zoomViewgramInPlace (H zb) (I d0) (I d1) (I inLo) rowsAbs inBin xo yo c s
+          (r.1, (r.2.2.headD []).length, r.2.1, r.2.2, m.2.2)
+      let z := fl32 (inBin / outBin)
+      let off := zoomViewgramOffset xo yo c s inBin
+      let mx := maxAbs vals
+      -- box edges evaluated in float (as for `ov1`) + the float evaluation of the offset (cos, sin, two products, a sum, a division)
+      let edge : Rat := 16 * u24 * mx * (1 + 1 / z)
+      let shift : Rat := 2 * mx * (16 * u24 * (absQ xo + absQ yo) / inBin)
+      -- model-internal cross-check of every row against the overlap specification
+      let specBad := (rows.zip res).any fun (r, o) =>
+        let spec := overlapSpecVec outLo outN ⟨I inLo, r⟩ z off
+        (o.zip spec).any fun (v, w) => absQ (v - w) > (2 / 100000 : Rat) * mx * (1 + 1 / z)
+      if specBad then (st, "SPEC-MISMATCH") else
+      let body := ((flat [res]).zip (flat [mag])).map fun (v, m) => " " ++ fq v (64 * u24 * (max (absQ v) (absQ m)) + edge + shift + pow2 (-100))
+      (st, (if variant == "out" then "" else s!"geom {outLo} {outN} {fq outBin (2 * u24 * absQ outBin)} |") ++ String.join body)
+    | _, _ => (st, "bad-op")
   | "cog" :: "|" :: rest =>
     let (gi, dat) := splitBar rest
     match parseGrid gi with
@@ -219,27 +270,32 @@ def stepLine (st : St) (line : String) : St × String :=
         (st, s!"{fq cz (tol g.vz g.oz cz mz (ext g.zmin g.nz * sa))} {fq cy (tol g.vy g.oy cy my (ext g.ymin g.ny * sa))} {fq cx (tol g.vx g.ox cx mx (ext g.xmin g.nx * sa))}")
   | "invssrb" :: minTof :: maxTof :: rs3 :: rs4 :: "|" :: rest =>
     let (s3, rest) := splitBar rest
-    let (s4, cvals) := splitBar rest
-    match s3, s4 with
-    | [seg3], _ :: segs4 =>
+    let (s4, rest) := splitBar rest
+    let (rng, dat) := splitBar rest
+    match s3, s4, rng.map I with
+    | [seg3], _ :: segs4, [minV3, maxV3, minT3, maxT3, minV4, maxV4, minT4, maxT4] =>
+      if !inverseSsrbCompatible minV3 maxV3 minT3 maxT3 minV4 maxV4 minT4 maxT4 then (st, "no") else
       let sg3 := parseSeg seg3
       -- m in millimetres: quarter ring spacings times ring_spacing/4; the source's tolerance is 1E-4 mm
       let ms : List Rat := (irange 0 (sg3.numAx - 1)).map fun a => ((sg3.m4 a : Int) : Rat) * H rs3 / 4
       let nTof := (I maxTof - I minTof + 1).toNat
       let n3 := sg3.numAx.toNat
-      let c := (cvals.map H).toArray          -- index k * n3 + a
+      let nb := ((maxV3 - minV3 + 1) * (maxT3 - minT3 + 1)).toNat
+      let vals := dat.map H
+      -- sinos[k][a] = bins of the direct sinogram (axial position a, TOF position k)
+      let sinos : List (List (List Rat)) := (chunks (n3 * nb) nTof vals).map fun l => chunks nb n3 l
+      let sinosAbs : List (List (List Rat)) := sinos.map fun l => l.map fun r => r.map absQ
       let outs : List (Option (List String)) := (segs4.map parseSeg).flatMap fun sg =>
-        (irange 0 (sg.numAx - 1)).map fun ax =>
-          match inverseSsrbWeights ms (((sg.m4 ax : Int) : Rat) * H rs4 / 4) (1 / 10000) with
-          | none => none
-          | some ws => some ((List.range nTof).map fun k =>
-              let v := ws.foldl (fun acc (aw : Nat × Rat) => acc + aw.2 * c.getD (k * n3 + aw.1) 0) 0
-              let m := ws.foldl (fun acc (aw : Nat × Rat) => acc + aw.2 * absQ (c.getD (k * n3 + aw.1) 0)) 0
-              fq v (16 * u24 * m + pow2 (-100)))
+        (irange 0 (sg.numAx - 1)).flatMap fun ax =>
+          (List.range nTof).map fun k =>
+            let outM := ((sg.m4 ax : Int) : Rat) * H rs4 / 4
+            match inverseSsrbSino ms outM (1 / 10000) (sinos.getD k []), inverseSsrbSino ms outM (1 / 10000) (sinosAbs.getD k []) with
+            | some v, some m => some ((v.zip m).map fun (x, y) => fq x (16 * u24 * y + pow2 (-100)))
+            | _, _ => none
       if outs.any Option.isNone then (st, "err")
       else (st, " ".intercalate (outs.flatMap fun o => o.getD []))
-    | _, _ => (st, "bad-op")
-  | "ext" :: segnum :: views :: "|" :: rest =>
+    | _, _, _ => (st, "bad-op")
+  | "ext" :: segnum :: views :: kn :: kd :: "|" :: rest =>
     let (dims, rest) := splitBar rest
     let (ext, vals) := splitBar rest
     match dims, ext with
@@ -250,7 +306,7 @@ def stepLine (st : St) (line : String) : St × String :=
       let q := (vals.map H)
       let d : Array (Array (Array Rat)) := ((chunks (nv * nt) na q).map fun pl => ((chunks nt nv pl).map List.toArray).toArray).toArray
       let seg : Arr3 := { a0 := I a0, v0 := I v0, t0 := I t0, d := d }
-      let r := extendSegment seg na nv nt (I ve) (I ae) (I te) (extendMode (I views) (I segnum))
+      let r := extendSegment seg na nv nt (I ve) (I ae) (I te) (extendModeK (I views) (I segnum) (I kn) (I kd))
       let all := r.d.toList.flatMap fun pl => pl.toList.flatMap fun row => row.toList
       let sz0 := r.d.size
       let sz1 := (r.d.getD 0 #[]).size
